@@ -72,7 +72,7 @@ def run(ck, facts, tier):
         ck.check(r24, short, ok, "conversion alters value, gradient or variable list, or does not add a zero Hessian: %s" % cel.vfmt(v)[:300], where, sample=cel.vfmt(v)[:200])
     # "a Hessian, read back per variable pair": the read-back rules of gradient1/gradient2 on Dual2 (C17 R17.1/R17.2) are necessary conditions here too
     from rules import c17
-    c17.run(ck, facts, tier, only={"gradient1[Dual2]", "gradient2[Dual2]"})
+    c17.run(ck, facts, tier, only={"gradient1[Dual2]", "gradient2[Dual2]", "manifold"})          # incl. the per-variable Hessian rows (gradient1_manifold)
     from rules import deps
     deps.include_alignment(ck, facts, tier)
     deps.include_number_surface(ck, facts, tier)
